@@ -233,3 +233,52 @@ func H_C05_q()     { c := vCase(); hC05(c%4, 1, 2, false, (c/4)%3, true, false) 
 func H_C05_r()     { c := vCase(); hC05(c%4, 1, 2, false, (c/4)%3, true, true) }
 func H_C05_t()     { c := vCase(); hC05(c%4, 2, 2, false, (c/4)%3, false, false) }
 func H_C05_crash() { c := vCase(); hC05(c%4, 1, 2, true, (c/4)%3, true, false) }
+
+// hC05seqcrash: no concurrency; the process dies at every mutating file-system
+// call inside Compact (or right after it); recovery must give exactly the
+// contents before the compaction - in particular no deleted key comes back.
+func hC05seqcrash(prefixIdx, layout int) {
+	n := 3
+	vlen := 2
+	rec := 10 + 8 + vlen
+	cfs := &crashFS{inner: fs.Mem}
+	opts := smallOpts(cfs, 2, rec)
+	opts.maxSegmentSize += uint32(c05extra[prefixIdx])
+	dir := "c05s"
+	db, err := Open(dir, opts)
+	vAssert(err == nil, "C05s.open")
+	if err != nil {
+		return
+	}
+	r := newRef(n, 8)
+	vConstrainHashes(db, r, layout, true)
+	for _, p := range c05prefixes[prefixIdx] {
+		applyOp(db, r, p[0], p[1], vlen, "C05s.prefix")
+	}
+	cfs.armed = true
+	crashed := vRunCrashable(func() {
+		cr, err := db.Compact()
+		vAssert(err == nil, "C05s.compact.err")
+		if cr.CompactedSegments > 1 {
+			vCover("C05s.compacted-several-segments")
+		}
+	})
+	if crashed {
+		vCover("C05s.crash-inside-compaction")
+	}
+	cfs.armed = false
+	fs.VerifDropHandles()
+	opts2 := smallOpts(fs.Mem, 2, rec)
+	opts2.maxSegmentSize = opts.maxSegmentSize
+	db2, err := Open(dir, opts2)
+	vAssert(err == nil, "C05s.recovering-open-succeeds")
+	if err != nil {
+		return
+	}
+	checkReads(db2, r, "C05s.recovered")
+	checkItems(db2, r, "C05s.recovered")
+	vCover("C05s.done")
+}
+
+// case = prefix (4) x layout (3)
+func H_C05_seqcrash() { c := vCase(); hC05seqcrash(c%4, (c/4)%3) }
